@@ -4,6 +4,7 @@ import (
 	"flag"
 	"fmt"
 	"os"
+	"path/filepath"
 	"strconv"
 )
 
@@ -38,7 +39,7 @@ func main() {
 		verbose := fs.Bool("v", false, "verbose")
 		timeout := fs.Int("timeout", 0, "per-query timeout in seconds")
 		_ = fs.Parse(os.Args[3:])
-		opts := CheckOpts{Prop: os.Args[2], Tier: *tier, Verbose: *verbose, OnlyFunc: *fn, WorkDir: "/verif/work/smt"}
+		opts := CheckOpts{Prop: os.Args[2], Tier: *tier, Verbose: *verbose, OnlyFunc: *fn, WorkDir: filepath.Join(outRoot, "work", "smt")}
 		if s, err := strconv.Atoi(os.Getenv("VERIF_SEED")); err == nil {
 			opts.Seed = s
 		}
